@@ -1,5 +1,6 @@
 import Anysystem.Proofs.SimQueueThms
 import Anysystem.Proofs.SimRunThms
+import Anysystem.Proofs.SimWholeRun
 /-!
 # C08 — A crash isolates a node and recovery starts clean (simulation)
 
@@ -21,5 +22,16 @@ namespace Anysystem
 #check @Sim.step_crashed_silent
 #check @Sim.steps_crashed_silent
 #check @Sim.sendLocal_crashed_refused
+
+/- whole runs: what a crash discards stays discarded — the events from and to the node that are queued at crash time are never
+   popped for delivery afterwards (not after recovery, not after re-adding processes), their ids are never issued again -/
+#check @Sim.crashNode_dead
+#check @Sim.DeadIds.never_popped
+#check @Sim.DeadIds.step
+#check @Sim.DeadIds.steps
+#check @Sim.DeadIds.sendLocal
+#check @Sim.DeadIds.recoverNode
+#check @Sim.DeadIds.addProcess
+#check @Sim.DeadIds.crashNode
 
 end Anysystem
